@@ -645,6 +645,30 @@ func checkC09(c *Check, p *Program) {
 		}
 		break
 	}
+	// the connect exchange has the same resend / timeout wiring as every request
+	{
+		var connSel *ssa.Select
+		var connAlloc ssa.Value
+		instrsOf(t.connect, func(in ssa.Instruction) {
+			if s, ok := in.(*ssa.Select); ok {
+				for _, st := range s.States {
+					if call, ok := st.Chan.(*ssa.Call); ok && st.Dir == types.RecvOnly && call.Common().IsInvoke() && call.Common().Method.Name() == "Inbound" {
+						connSel = s
+					}
+				}
+			}
+		})
+		for _, s := range ix.sockSends {
+			if s.Fn == t.connect && s.payloadIs("ConnReq") {
+				connAlloc = s.PayVal
+			}
+		}
+		if connSel == nil {
+			c.Fail("C09.H7", cn+" reply select", p.Pos(t.connect.Pos()), "no select receiving from the socket's inbound channel")
+		} else {
+			checkRequestLoop(c, p, "C09.H7", t.connect, connSel, connAlloc, "ConnReq", a.respTimeout, a.resend, 0)
+		}
+	}
 	// busy statuses retry, everything else fails: every return not behind Status==0 is non-nil (done above by returnMayBeNil)
 	for _, busy := range []string{"ErrNoMoreConnections", "ErrNoMoreUniqueConnections"} {
 		cst, _ := p.Pkg("knx/knxnet").Scope().Lookup(busy).(*types.Const)
